@@ -1448,6 +1448,49 @@ Module RoundtripCex.
   Qed.
 End RoundtripCex.
 
+(* ================================================================== *)
+(* discharging [codec_ok] with the codec round trip of Proofs/ManifestRT *)
+(* ================================================================== *)
+From DudV Require Proofs.ManifestRT.
+
+Lemma okb_of_wf_text s : wf_text s -> ManifestRT.okb s = true.
+Proof.
+  intros [Hv Hb]. unfold ManifestRT.okb. rewrite Hv. cbn [andb].
+  unfold wf_bytes. apply forallb_forall. intros x Hx. unfold bytes_ok in Hb.
+  rewrite Forall_forall in Hb. unfold is_byte. apply N.ltb_lt. apply Hb. exact Hx.
+Qed.
+
+Lemma ssorted_of_sorted (l : list (bytes * artifact)) :
+  StronglySorted man_key_lt l -> ManifestRT.ssorted l = true.
+Proof.
+  induction 1 as [|kv r Hr IH Hall]; [reflexivity|].
+  cbn [ManifestRT.ssorted]. rewrite IH, andb_true_r.
+  unfold ManifestRT.keys_gt. apply forallb_forall. intros e He.
+  rewrite Forall_forall in Hall. apply (Hall _ He).
+Qed.
+
+Theorem codec_ok_holds : codec_ok.
+Proof.
+  intros m (Hp & Hs & Hall). apply ManifestRT.dec_enc_manifest.
+  unfold ManifestRT.wf_manifest.
+  rewrite (okb_of_wf_text _ Hp), (ssorted_of_sorted _ Hs). cbn [andb].
+  unfold ManifestRT.wf_entries. apply forallb_forall. intros kv Hkv.
+  rewrite Forall_forall in Hall. destruct (Hall _ Hkv) as (H1 & H2 & H3 & H4 & _).
+  unfold ManifestRT.wf_entry.
+  rewrite H1, beqb_refl, H2, (okb_of_wf_text _ H3), (okb_of_wf_text _ H4). reflexivity.
+Qed.
+
+Theorem roundtrip_benign_closed H :
+  H_inj H -> H_has H -> H_text H -> forall a n c st st' n' c' a',
+    plain n -> benign n -> kind_ok a n -> top_art a -> cache_inv H c ->
+    commit_node H a n c st = Ok (n', c', a') ->
+    exists fuel n2, checkout_node H fuel a' None c' st' = Ok (Some n2) /\
+                    logical c' n2 = tracked_view a n.
+Proof. intros Hinj Hhas Htext. exact (roundtrip_benign H Hinj Hhas Htext codec_ok_holds). Qed.
+
+Theorem roundtrip_refuted_closed : ~ stmt_roundtrip RoundtripCex.Hb.
+Proof. exact (RoundtripCex.roundtrip_refuted codec_ok_holds). Qed.
+
 Print Assumptions copy_verified.
 Print Assumptions checkout_file_frame.
 Print Assumptions copy_tree_verified.
@@ -1465,3 +1508,6 @@ Print Assumptions C06_obstructed.
 Print Assumptions checkout_fuel_mono.
 Print Assumptions RoundtripCex.roundtrip_counterexample.
 Print Assumptions RoundtripCex.roundtrip_refuted.
+Print Assumptions codec_ok_holds.
+Print Assumptions roundtrip_benign_closed.
+Print Assumptions roundtrip_refuted_closed.
